@@ -94,11 +94,13 @@ pub struct SymModel {
     pub un_ops: Vec<u16>,
     pub bin_ops: Vec<u16>,
     pub max_len: usize,
+    /// (form, second factory?) of the roots
+    pub forms: Vec<(Form, bool)>,
 }
 impl Hist for SymModel {
     type Act = SAct;
     fn roots(&self) -> Vec<Vec<SAct>> {
-        (0..self.pool.len()).flat_map(|i| [vec![SAct::Init(i, 0, false)], vec![SAct::Init(i, 1, false)], vec![SAct::Init(i, 2, false)], vec![SAct::Init(i, 0, true)], vec![SAct::Init(i, 1, true)]]).collect()
+        (0..self.pool.len()).flat_map(|i| self.forms.iter().map(move |(f, tw)| vec![SAct::Init(i, *f, *tw)])).collect()
     }
     fn enabled(&self, hist: &[SAct], out: &mut Vec<SAct>) {
         for k in 0..self.un_ops.len() {
@@ -477,8 +479,13 @@ pub fn run(tier: Tier) -> i32 {
     // (incl. unary operators directly on literals, which only parse_wo_compile leaves pending)
     let pool_s = read_pool(&["x", "y", "x+y", "1*x", "z/x", "1", "f(y)-2", "2|1", "x*-2", "f(1)+y"], &ut, LitKind::Sym);
     let twin = Table::new(ut.ops.iter().rev().cloned().collect());
-    let m = SymModel { table: ut.clone(), twin, pool: Arc::new(pool_s), un_ops: vec![5, 12], bin_ops: vec![0, 2, 4, 5, 9, 10], max_len: if tier.thorough() { 4 } else { 3 } };
-    explore(m, &mut rep, "c10", "symbolic/by-name");
+    let m = SymModel { table: ut.clone(), twin, pool: Arc::new(pool_s), un_ops: vec![5, 12], bin_ops: vec![0, 2, 4, 5, 9, 10], max_len: 3, forms: vec![(0, false), (1, false), (2, false), (0, true), (1, true)] };
+    explore(m.clone(), &mut rep, "c10", "symbolic/by-name, 5 forms (flat, deep, uncompiled flat, second factory flat / deep)");
+    if tier.thorough() {
+        // one more step for the two plain forms
+        let m4 = SymModel { max_len: 4, forms: vec![(0, false), (1, false)], ..m };
+        explore(m4, &mut rep, "c10", "symbolic/by-name, flat and deep, histories of length 4");
+    }
     // (ii)
     let qt = num_table();
     // incl. operands that merely look neutral (a sign over a parenthesised 0 / 1) or are neutral
